@@ -124,6 +124,32 @@ CLAIMS.update({
         ref='DESIGN.md §5 C20'),
 })
 
+CLAIMS.update({
+    'C18': dict(
+        category='proof',
+        technique='Lean 4 proof by induction over pages and busy-poll schedules (dfu_run_ok) of a host model composed with a DfuSe device automaton; real cli_main driven against the Lean device',
+        text=('Theorem dfu_run_ok: for every firmware that fits, the four GD32 page counts, every fault-free schedule (unbounded busy-poll '
+              'counts, arbitrary poll timeouts, either start state) and every initial flash, the composed run exits 0, prints done, leaves '
+              'flash = initial flash with the zero-padded image on pages 0..ceil(len/1024)-1, erased = written = exactly those pages in '
+              'order, and all five device monitors clean (erase-before-write, no request while busy, poll delays respected, addresses in '
+              'range, aligned writes); run_halted / run_fuel_irrelevant remove fuel from every statement. Tie: the REAL bronzebeard.dfu.cli_main '
+              'runs in-process against the LEAN device (fake usb package forwarding ctrl_transfer, time.sleep forwarded); its full event trace '
+              'must equal the Lean host model\'s and the property is evaluated on what the real host did: every length 0..3073, the flash-size '
+              'boundaries of all four variants, exhaustive busy-count schedules for 1-3 pages, seeded beyond.'),
+        note=TB + ' The device automaton (DFU 1.1 + DfuSe) is specification; not exhibitable: that time.sleep really waits, USB transport errors other than a stall, pyusb/libusb, hardware conformance.',
+        ref='DESIGN.md §5 C18'),
+    'C19': dict(
+        category='proof',
+        technique='Lean 4 theorems oversize_no_request / device_error_not_done (+ single/double injection) over the same host+device model; fault injection against the real cli_main',
+        text=('Theorems: an oversize firmware yields an empty request trace, non-zero exit and untouched flash (any page count); if any reachable '
+              'erase/set-address/write operation is given a non-OK status - any number of injections - the run exits non-zero, never prints done, '
+              'and the exit message is that of the FIRST failing operation (eraseFailed addr status / writeFailed addr status / usbError). Tie: '
+              'the real cli_main against the Lean device with each error status 1..15 injected at every erase/write/set-address step of runs of '
+              '<= 4 pages (all single, all double for <= 2 pages), oversize lengths size+1..size+2048 and 2*size for all variants.'),
+        note=TB + ' Set-address failures surface as a raw USBError traceback (exit 1, no done!) - the property names erase and write statuses only.',
+        ref='DESIGN.md §5 C19'),
+})
+
 PENDING_REASON = 'check not built yet (work in progress; see DESIGN.md section 5 for the plan)'
 
 
